@@ -51,7 +51,7 @@ Proof.
       * intros [->|[[<-|H] E]]; [now left| |now right]. cbn in E. congruence.
     + rewrite (IH ND'). split.
       * intros [<-|[->|[H E]]]; [right; split; [now left|exact N]|now left|right; split; [now right|exact E]].
-      * intros [->|[[<-|H] E]]; [right; now left|now left|right; right; now right].
+      * intros [->|[[<-|H] E]]; [right; now left|now left|right; right; split; assumption].
 Qed.
 
 Lemma keys_remove {A} k (l : list (nat * A)) :
@@ -328,9 +328,9 @@ Proof.
 Qed.
 
 (* ================= tallies are the specification's weights ================= *)
-Lemma threshold_unit n : (N.of_nat n - (N.of_nat n - 1) / 3 = N.of_nat (2 * n / 3) + 1)%N.
+Lemma threshold_unit n : 0 < n -> (N.of_nat n - (N.of_nat n - 1) / 3 = N.of_nat (2 * n / 3) + 1)%N.
 Proof.
-  destruct n as [|n]; [reflexivity|].
+  destruct n as [|n]; [lia|]. intros _.
   replace (N.of_nat (S n) - 1)%N with (N.of_nat n) by lia.
   pose proof (Nat.div_mod (2 * S n) 3 ltac:(lia)) as D1. pose proof (Nat.mod_upper_bound (2 * S n) 3 ltac:(lia)) as M1.
   pose proof (N.div_mod (N.of_nat n) 3 ltac:(lia)) as D2. pose proof (N.mod_lt (N.of_nat n) 3 ltac:(lia)) as M2.
@@ -352,8 +352,8 @@ Proof.
   induction (seq 0 n) as [|a l IH]; cbn; congruence.
 Qed.
 
-Lemma threshold_spec e : Votes.threshold (unit_ws e) = (threshold e + 1)%N.
-Proof. unfold Votes.threshold, unit_ws, threshold. rewrite total_unit. apply threshold_unit. Qed.
+Lemma threshold_spec e : 0 < e_voters e -> Votes.threshold (unit_ws e) = (threshold e + 1)%N.
+Proof. intro H. unfold Votes.threshold, unit_ws, threshold. rewrite total_unit. now apply threshold_unit. Qed.
 
 (* counting the members of a duplicate-free list of indices below n *)
 Lemma count_mem n (l : list nat) : NoDup l -> (forall x, In x l -> x < n) ->
@@ -372,6 +372,7 @@ Variable e : env.
 Variable st : vstate.
 Variable sg : stage.
 Hypothesis W : wf_stage e st sg.
+Hypothesis NV : 0 < e_voters e.
 
 Let S := spec_votes st sg.
 
@@ -383,7 +384,7 @@ Proof.
   - intros [[p [E I]]|[p [I H]]]; [left; exists p; auto|right; exists p].
     split; [exact I|]. cbn in H. destruct H as [<-|[<-|[]]]; auto.
   - intros [[p [I ->]]|[p [I H]]]; [left; exists p; auto|right; exists p].
-    split; [exact I|]. cbn. destruct H as [->|->]; auto.
+    split; [exact I|]. cbn. destruct H as [-> | ->]; auto.
 Qed.
 
 Lemma spec_equivocates v : equivocates S v = true <-> In v (keys (eqv_of st sg)).
@@ -392,9 +393,9 @@ Proof.
   - intros [x [y [Ix [Iy [Vx [Vy N]]]]]].
     apply in_spec_votes in Ix. apply in_spec_votes in Iy.
     destruct Ix as [[p [Ip ->]]|[p [Ip Hp]]].
-    2:{ apply in_map_iff. exists p. split; [|exact Ip]. destruct Hp as [->| ->]; exact Vx. }
+    2:{ apply in_map_iff. exists p. split; [|exact Ip]. destruct Hp as [-> | ->]; exact Vx. }
     destruct Iy as [[q [Iq ->]]|[q [Iq Hq]]].
-    2:{ apply in_map_iff. exists q. split; [|exact Iq]. destruct Hq as [->| ->]; exact Vy. }
+    2:{ apply in_map_iff. exists q. split; [|exact Iq]. destruct Hq as [-> | ->]; exact Vy. }
     (* two stored votes of one authority: the same entry *)
     exfalso. cbn in Vx, Vy. subst v.
     assert (p = q).
@@ -419,7 +420,7 @@ Proof.
   intro NE. rewrite votes_for_spec. split.
   - intros [x [Ix [Vx A]]]. apply in_spec_votes in Ix. destruct Ix as [[p [Ip ->]]|[p [Ip Hp]]].
     + cbn in Vx, A. exists (snd p). subst v. destruct p; auto.
-    + exfalso. apply NE. apply in_map_iff. exists p. split; [|exact Ip]. destruct Hp as [->| ->]; exact Vx.
+    + exfalso. apply NE. apply in_map_iff. exists p. split; [|exact Ip]. destruct Hp as [-> | ->]; exact Vx.
   - intros [g [I A]]. exists (mkVote v (gv_block g) 0). repeat split; auto.
     apply in_spec_votes. left. exists (v, g). auto.
 Qed.
@@ -428,7 +429,7 @@ Qed.
 Lemma total_votes_weight b :
   total_votes e st sg b = weight (e_tree e) (unit_ws e) S b.
 Proof.
-  destruct W as [ND [NDE [DJ [RV RE]]]].
+  clear NV. destruct W as [ND [NDE [DJ [RV RE]]]].
   unfold total_votes, votes_for_block, weight, unit_ws, wsum. rewrite wsum_from_unit.
   set (isE := fun v => existsb (Nat.eqb v) (keys (eqv_of st sg))).
   set (okv := fun p : nat * gvote => ancb (e_tree e) b (gv_block (snd p))).
@@ -484,7 +485,7 @@ Qed.
 Lemma over_threshold_supermajority b :
   (threshold e <? total_votes e st sg b)%N = spec_supermajority e st sg b.
 Proof.
-  unfold spec_supermajority, has_supermajority. rewrite threshold_spec, total_votes_weight.
+  unfold spec_supermajority, has_supermajority. rewrite (threshold_spec e NV), total_votes_weight.
   fold S. destruct (N.ltb_spec (threshold e) (weight (e_tree e) (unit_ws e) S b));
   destruct (N.leb_spec (threshold e + 1) (weight (e_tree e) (unit_ws e) S b)); lia.
 Qed.
